@@ -1,6 +1,7 @@
 package tf
 
 import (
+	"os"
 	"fmt"
 	"go/ast"
 	"go/constant"
@@ -70,6 +71,7 @@ type codecExec struct {
 	binds   map[string][]string // reader: R/B symbol -> bound meanings
 	sizes   map[string]string   // reader: B<k> or slice symbol -> size symbol
 	bounds  []string            // "R1 <= const:maxRelPathLength"
+	boundsResolved []string     // the same after resolve(): "reject if (len(F.RelPath) > const:maxRelPathLength)"
 	problems []string
 	earlyZeroReturn []string // reader: symbols X with `if X == 0 { return ok }`
 	retSym  string
@@ -767,6 +769,17 @@ func (x *codecExec) resolve(toks []codecTok) []codecTok {
 		return out
 	}
 	out := walk(toks)
+	// bounds on wire values, in terms of the fields they decode into
+	x.boundsResolved = nil
+	for _, b := range x.bounds {
+		for k := range lenMeaning {
+			b = replaceSym(b, k, lenMeaning[k])
+		}
+		for k, m := range meaning {
+			b = replaceSym(b, k, m)
+		}
+		x.boundsResolved = append(x.boundsResolved, b)
+	}
 	// early zero returns must be about a count that only governs trailing repeat/cond sections
 	for _, c := range x.earlyZeroReturn {
 		cc := c
@@ -1001,8 +1014,10 @@ func runCodec(c *Ctx) {
 		wn := normToks(w.toks[1:])
 		var rn []string
 		var rprob []string
+		var rxDbg *codecExec
 		if ci.reader != nil {
 			rx := newCodecExec(p, ci.reader, false)
+			rxDbg = rx
 			rt := rx.block(ci.reader.Body.List)
 			rt = rx.resolve(rt)
 			rn = normToks(rt)
@@ -1018,6 +1033,33 @@ func runCodec(c *Ctx) {
 			continue
 		}
 		ws_, rs_ := strings.Join(wn, ", "), strings.Join(rn, ", ")
+		if os.Getenv("TFDEBUG") == "bounds" {
+			var rb []string
+			if rxDbg != nil {
+				rb = rxDbg.bounds
+			}
+			fmt.Fprintf(os.Stderr, "BOUNDS %s\n  writer %v\n  reader %v\n  toks %s\n", cn, w.x.bounds, rb, ws_)
+		}
+		if ws_ == rs_ && rxDbg != nil {
+			// domain agreement: a value the writer emits must not be refused by the reader. Every reader-side rejection of a
+			// decoded value is either enforced by the writer too or is a confirmed protocol limit.
+			wb := map[string]bool{}
+			for _, b := range w.x.bounds {
+				wb[b] = true
+			}
+			var extra []string
+			for _, b := range rxDbg.boundsResolved {
+				if !wb[b] && codecProtocolLimits[cn+": "+b] == "" {
+					extra = append(extra, b)
+				}
+			}
+			if len(extra) > 0 {
+				c.Bad(key+"/domain", ci.reader.Pos(), fmt.Sprintf("reader %s refuses values that writer %s emits: %s - a record inside the length field's range does not round-trip, and the rest of the stream is lost",
+					ci.reader.Name, w.f.Name, strings.Join(extra, "; ")))
+			} else {
+				c.OK(key+"/domain", ci.reader.Pos(), fmt.Sprintf("reader-side rejections (%d) are writer-enforced or confirmed protocol limits", len(rxDbg.boundsResolved)))
+			}
+		}
 		if ws_ == rs_ {
 			c.OK(key, w.f.Pos(), fmt.Sprintf("writer %s and reader agree: [%s]", w.f.Name, ws_))
 		} else {
@@ -1173,4 +1215,9 @@ func runCodec(c *Ctx) {
 func isStreamType(t types.Type) bool {
 	n, ok := t.(*types.Named)
 	return ok && n.Obj().Name() == "Stream" && n.Obj().Pkg() != nil && n.Obj().Pkg().Path() == RepoPkg("internal/transfer")
+}
+
+// codecProtocolLimits: reader-side limits that are part of the protocol (confirmed by reading), keyed "record: bound".
+var codecProtocolLimits = map[string]string{
+	"controlTypeFileBegin: reject if (len(F.RelPath) > const:maxRelPathLength)": "documented path length limit (maxRelPathLength); validateRelPath applies the same limit to every manifest path on both sides",
 }
